@@ -527,6 +527,8 @@ def conveyor_cfgs(tier):
     for kind in ("cconv", "sconv"):
         C[f"{kind}-acc1-juggling-consumer"] = dict(kind=kind, acc=1, cap=3, n_items=3, consumer="juggle")
     C["cconv-acc1-late-bystander-belt"] = dict(kind="cconv", acc=1, cap=4, n_items=3, consumer="late", bystander=True, svc_hi=12)
+    C["sconv-acc1-fed-by-a-faster-belt"] = dict(kind="sconv", acc=1, cap=3, n_items=3, consumer="late", feeder=True, slot=2)
+    C["cconv-acc0-fed-by-a-faster-belt"] = dict(kind="cconv", acc=0, cap=3, n_items=3, consumer="slow", feeder=True)
     C["sconv-acc1-cap2-hold"] = dict(kind="sconv", acc=1, cap=2, n_items=3, consumer="hold")
     C["cconv-acc1-cap2-hold"] = dict(kind="cconv", acc=1, cap=2, n_items=3, consumer="hold")
     C["sconv-acc1-2producers"] = dict(kind="sconv", acc=1, cap=3, n_items=3 if q else 4, consumer="late", n_prod=2)
